@@ -40,16 +40,18 @@ def evOf (s : String) : Option Ev :=
      | _ => none)
   | _ => none
 
-/-- replay; a `started` observation must match the model's start log at that point. -/
-def runIdx : State → List Ev → Nat → Nat → State × Option Nat
+/-- replay; a `started` observation (the task's first instruction runs on worker `w`) must be one of
+    the starts the model has made and that has not been observed yet: between a worker taking the
+    task (a locked block, or the thread's creation) and the task's first instruction other workers
+    may run, so the observations need not come in the order of the model's steps. -/
+def runIdx : State → List Ev → Nat → List (Nat × Nat) → State × Option Nat
   | s, [], _, _ => (s, none)
   | s, .lbl l :: es, i, seen =>
     (match step s l with
      | some s' => runIdx s' es (i + 1) seen
      | none => (s, some i))
   | s, .started k w :: es, i, seen =>
-    -- the implementation reports its `seen`-th task start: it must be the model's `seen`-th too
-    if s.started[seen]? == some (k, w) then runIdx s es (i + 1) (seen + 1) else (s, some i)
+    if s.started.contains (k, w) && !seen.contains (k, w) then runIdx s es (i + 1) ((k, w) :: seen) else (s, some i)
 
 /-- whole-server runs: the end of a connection's task is not visible from outside; it is supplied
     before the worker's next locked block. -/
@@ -91,7 +93,7 @@ def runAnon (kv : KV) : String :=
     "newthread:" ++ b01 (strs.any (fun x => x.endsWith ":n")),
     "queued:" ++ b01 (strs.any (fun x => (x.splitOn ":q").length > 1)),
     "timeoutwake:" ++ b01 (strs.any (fun x => x.startsWith "T")),
-    "ptimer:" ++ get kv "ptimer" ]
+    "ptimer:" ++ get kv "ptimer", "preempt:" ++ b01 (decide (0 < toNatD (get kv "preempt"))) ]
   let diff := if !parsedAll then "unparsed-label"
     else match rej with
       | some i => "label-rejected:" ++ toString i ++ ":" ++ strs.getD i "?"
@@ -105,7 +107,7 @@ def run (kv : KV) : String :=
   let strs := listS ',' (get kv "labels")
   let evs := strs.filterMap evOf
   let parsedAll := evs.length == strs.length
-  let (s, rej) := runIdx init evs 0 0
+  let (s, rej) := runIdx init evs 0 []
   let accepted := parsedAll && rej.isNone
   let started := listS ',' (get kv "started")
   let liveBurst := toNatD (get kv "live_burst")
@@ -134,7 +136,7 @@ def run (kv : KV) : String :=
     "spuriouswake:" ++ b01 (strs.any (fun x => x.startsWith "W")),
     "presettle:" ++ get kv "presettle",
     "burstlive:" ++ (if liveBurst ≤ 4 then "le4" else "gt4"),
-    "ptimer:" ++ get kv "ptimer", "trickle:" ++ b01 (decide (0 < trickle)) ]
+    "ptimer:" ++ get kv "ptimer", "preempt:" ++ b01 (decide (0 < toNatD (get kv "preempt"))), "trickle:" ++ b01 (decide (0 < trickle)) ]
   let diff := if !parsedAll then "unparsed-label"
     else match rej with
       | some i => "label-rejected:" ++ toString i ++ ":" ++ strs.getD i "?"
